@@ -14,14 +14,22 @@ from vp.symx import canon, pick, native, pattern_index
 from vp.synth import DG, NativeParser, PX, PA, iform, class_reg, mk_model
 
 
-def _lcd_set(isa, instrs_spec, order, model=None):
+def _lcd_set(isa, instrs_spec, order, model=None, parallel_cores=0):
     """instrs_spec[i] = (src operands, dst operands, src_dst operands, latency); order = identity ids in file order."""
     kernel = []
     for pos, ident in enumerate(order):
         src, dst, sd, lat = instrs_spec[ident]()
         kernel.append(iform(pos + 1, src=src, dst=dst, src_dst=sd, lat=lat, mnemonic="op%d" % ident))
     parser = NativeParser(PX if isa == "x86" else PA)
-    g = DG(kernel, parser, model=model, lcd=True)
+    if parallel_cores:
+        # multi-process branch (threshold lowered) with stub processes publishing in start order
+        from harness._procstub import Env, installed
+        g = DG(kernel, parser, model=model)
+        g.INSTRUCTION_THRESHOLD = 1
+        with installed(Env(parallel_cores)):
+            g.loopcarried_deps = g.check_for_loopcarried_dep(kernel, timeout=-1)
+    else:
+        g = DG(kernel, parser, model=model, lcd=True)
     deps = g.get_loopcarried_dependencies()
     out = set()
     for d in deps.values():
@@ -30,7 +38,7 @@ def _lcd_set(isa, instrs_spec, order, model=None):
     return out, len(deps)
 
 
-def _rot_concrete(isa, nreads, pat, r, narrow):
+def _rot_concrete(isa, nreads, pat, r, narrow, parallel_cores=0):
     n = len(nreads)
     specs = []
     k = 0
@@ -44,8 +52,8 @@ def _rot_concrete(isa, nreads, pat, r, narrow):
         specs.append(mk)
     base = list(range(n))
     rotated = base[r:] + base[:r]
-    a, na = _lcd_set(isa, specs, base)
-    b, nb = _lcd_set(isa, specs, rotated)
+    a, na = _lcd_set(isa, specs, base, parallel_cores=parallel_cores)
+    b, nb = _lcd_set(isa, specs, rotated, parallel_cores=parallel_cores)
     ok = a == b and na == nb
     if ok:
         ma = max([l for _, l in a]) if a else 0
@@ -72,6 +80,25 @@ def rot3_x86(r0: int, w0: int, r1: int, w1: int, r2: int, w2: int, rot: int) -> 
     if skip(locals()):
         return True
     return _rot("x86", [1, 1, 1], [r0, w0, r1, w1, r2, w2], rot, False)
+
+
+def rot3_parallel(r0: int, w0: int, r1: int, w1: int, r2: int, w2: int, rot: int, cores: int) -> bool:
+    """
+    pre: 1 <= rot <= 2 and 1 <= cores <= 4
+    post: _
+    """
+    # the multi-process branch of the search (threshold lowered, stub processes) under rotation
+    if skip(locals()):
+        return True
+    flat = [r0, w0, r1, w1, r2, w2]
+    pre = canon(flat[:4])
+    if not in_shard_index(pattern_index(pre)):
+        return True
+    pat = canon(flat)
+    r = pick(rot, 3)
+    c = pick(cores - 1, 4) + 1
+    ok, nontrivial, sample = native(_rot_concrete, "x86", [1, 1, 1], list(pat), r, False, c)
+    return verdict(ok, nontrivial=nontrivial, sample=sample)
 
 
 def rot3_a64_narrow(r0: int, w0: int, r1: int, w1: int, r2: int, w2: int, rot: int) -> bool:
@@ -170,6 +197,7 @@ CELLS = {
     "rot4_x86": {"fn": rot4_x86, "bound": "n=4, all Bell(8)=4140 patterns x offsets 1..3", "budget": {"quick": 170, "thorough": 900}, "shards": 13},
     "rot3_writeback": {"fn": rot3_writeback, "bound": "n=3, instruction 0 = AArch64 pre/post-indexed load or store (base write-back), all patterns x offsets",
                        "budget": {"quick": 170, "thorough": 900}, "shards": 5},
+    "rot3_parallel": {"fn": rot3_parallel, "bound": "n=3, all 203 patterns x offsets x 1-4 stub worker processes: multi-process branch (threshold lowered)", "budget": {"quick": 170, "thorough": 600}, "shards": 5},
     "rot3_a64_narrow": {"fn": rot3_a64_narrow, "tiers": ("thorough",), "bound": "n=3 on AArch64 with reads through the w alias", "budget": {"thorough": 600}, "shards": 5},
     "rot2_two_reads": {"fn": rot2_two_reads, "tiers": ("thorough",), "bound": "n=2, two reads + one write per instruction", "budget": {"thorough": 600}, "shards": 5},
     "rot4_writeback": {"fn": rot4_writeback, "tiers": ("thorough",), "bound": "n=4 with write-back instruction, all Bell(8) patterns x offsets x pre/post x load/store", "budget": {"thorough": 2400}, "shards": 52},
